@@ -30,6 +30,7 @@ type GenInput struct {
 	Spec    string `json:"spec"`
 	Config  string `json:"config,omitempty"`
 	Package string `json:"package,omitempty"`
+	Dir     string `json:"dir,omitempty"`
 }
 
 type HistItem struct {
@@ -210,6 +211,20 @@ func (e *Engine) RunJob(bin string, scs []Scenario, timeout time.Duration) ([]Re
 	}
 	if r.Err != nil && !strings.Contains(fmt.Sprint(r.Err), "exit status") {
 		return results, build.Toolf("simulation process: %v\n%s", r.Err, tailStr(stderr, 4000))
+	}
+	// A process that died (fatal error, unrecovered panic in a goroutine of the code under test) takes the
+	// rest of its batch with it: only the first scenario without a result was running; the ones behind it are
+	// run again in a fresh process.
+	for i := range results {
+		if results[i].Missing {
+			results[i].Stderr = tailStr(stderr, 4000)
+			if i+1 < len(scs) {
+				rest, err := e.RunJob(bin, scs[i+1:], timeout)
+				copy(results[i+1:], rest)
+				return results, err
+			}
+			break
+		}
 	}
 	for i := range results {
 		if results[i].Missing {
@@ -845,32 +860,74 @@ func (e *Engine) Check(c *core.Ctx, filter func(Input) bool) (*core.Outcome, err
 		}
 	}
 
-	// ---- minimise and report byte/outcome failures (grouped so that one cause is minimised once)
+	// ---- minimise and report byte/outcome failures (grouped so that one cause is minimised once;
+	// groups are minimised in parallel under a wall-clock budget, later ones reuse culprit sets found earlier)
 	sort.SliceStable(fails, func(i, j int) bool { return fails[i].it.sc.ID < fails[j].it.sc.ID })
 	groupSeen := map[string]int{}
-	minimised := 0
-	var hints [][]string
+	var reps []failure
 	for _, f := range fails {
 		g := f.oracle + "|" + f.it.in.In.Spec + "|" + strings.Join(f.diff, ",")
 		groupSeen[g]++
-		if groupSeen[g] > 1 {
-			continue
+		if groupSeen[g] == 1 {
+			reps = append(reps, f)
 		}
-		sc, sites := f.it.sc, []string(nil)
-		runs := 0
-		if minimised < 40 {
-			minimised++
-			sc, sites, runs = e.minimise(f.it.sc, refBy[f.it.in.Name], f.oracle, hints)
-			if len(sites) > 0 && len(sites) <= 4 {
-				hints = append(hints, sites)
+	}
+	type minimised struct {
+		sc    Scenario
+		sites []string
+		runs  int
+		done  bool
+	}
+	mins := make([]minimised, len(reps))
+	{
+		var hmu sync.Mutex
+		var hints [][]string
+		budget := 150 * time.Second
+		if c.Tier == "thorough" {
+			budget = 15 * time.Minute
+		}
+		mstart := time.Now()
+		sem := make(chan struct{}, max(2, c.Jobs/2))
+		var mwg sync.WaitGroup
+		for i := range reps {
+			mins[i].sc = reps[i].it.sc
+			if i >= 60 {
+				continue
 			}
+			mwg.Add(1)
+			sem <- struct{}{}
+			go func(i int) {
+				defer mwg.Done()
+				defer func() { <-sem }()
+				if time.Since(mstart) > budget {
+					return
+				}
+				hmu.Lock()
+				hs := append([][]string(nil), hints...)
+				hmu.Unlock()
+				sc, sites, runs := e.minimise(reps[i].it.sc, refBy[reps[i].it.in.Name], reps[i].oracle, hs)
+				mins[i] = minimised{sc, sites, runs, true}
+				if len(sites) > 0 && len(sites) <= 4 {
+					hmu.Lock()
+					hints = append(hints, sites)
+					hmu.Unlock()
+				}
+			}(i)
 		}
-		key := fmt.Sprintf("%s spec=%s sites=%s files=%s", shortOracle(f.oracle), filepath.Base(f.it.in.In.Spec), e.siteKey(sites), strings.Join(f.diff, ","))
+		mwg.Wait()
+	}
+	for i, f := range reps {
+		m := mins[i]
+		sitesKey := e.siteKey(m.sites)
+		if !m.done {
+			sitesKey = "[not-minimised]"
+		}
+		key := fmt.Sprintf("%s spec=%s sites=%s files=%s", shortOracle(f.oracle), filepath.Base(f.it.in.In.Spec), sitesKey, strings.Join(f.diff, ","))
 		out.Violations = append(out.Violations, core.Violation{
 			Key:    key,
 			Oracle: f.oracle,
-			What:   fmt.Sprintf("%s: %s; minimal culprit sites: %v (minimised in %d runs)", f.it.sc.ID, clip(f.what, 600), sites, runs),
-			Seed:   c.Seed, Scenario: map[string]any{"binary": "plain", "scenario": sc}, Trace: map[string]any{"sched_hash": f.res.SchedHash, "culprit_sites": sites, "original": f.it.sc},
+			What:   fmt.Sprintf("%s: %s; minimal culprit sites: %v (minimised in %d runs)", f.it.sc.ID, clip(f.what, 600), m.sites, m.runs),
+			Seed:   c.Seed, Scenario: map[string]any{"binary": "plain", "scenario": m.sc}, Trace: map[string]any{"sched_hash": f.res.SchedHash, "culprit_sites": m.sites, "original": f.it.sc},
 		})
 	}
 
